@@ -33,45 +33,57 @@ CONSTANTS GraphRels, FunRels, MaxN,
           PdfBases, PdfK, PdfMod, TruncK,
           Seed, Emit
 
-VARIABLES shape, todo, visited, level, steps, revisit, status
-vars == <<shape, todo, visited, level, steps, revisit, status>>
+VARIABLES shape, ne, todo, visited, level, steps, revisit, status     \* ne: number of edges of the shape (constant per behaviour)
+vars == <<shape, ne, todo, visited, level, steps, revisit, status>>
 
 (* ------------------------------------------------------------------ shapes *)
-BitVal == <<1, 2, 4, 8, 16, 32, 64, 128, 256, 512, 1024, 2048, 4096, 8192, 16384, 32768>>
+(* Graphs are enumerated by an integer code (one bit per possible edge / one digit per pointer) so that sampling   *)
+(* by "code + Seed" needs no enumeration of the whole space.                                                       *)
+BitVal == <<1, 2, 4, 8, 16, 32, 64, 128, 256, 512, 1024, 2048, 4096, 8192, 16384, 32768, 65536>>
 RECURSIVE SumSet(_)
 SumSet(S) == IF S = {} THEN 0 ELSE LET x == CHOOSE y \in S : TRUE IN x + SumSet(S \ {x})
+RECURSIVE Pw(_, _)
+Pw(b, k) == IF k = 0 THEN 1 ELSE b * Pw(b, k - 1)
+Bit(c, k) == (c \div BitVal[k + 1]) % 2
+Digit(c, b, k) == (c \div Pw(b, k)) % b
+
+AdjOf(n, c) == [i \in 1..n |-> {j \in 1..n : Bit(c, (i - 1) * n + (j - 1)) = 1}]
 AdjCode(n, a) == SumSet({BitVal[(q[1] - 1) * n + q[2]] : q \in {r \in (1..n) \X (1..n) : r[2] \in a[r[1]]}})
 Swap23(n, a) == LET p(i) == IF i = 2 THEN 3 ELSE IF i = 3 THEN 2 ELSE i
                 IN [i \in 1..n |-> {p(j) : j \in a[p(i)]}]
-GraphKept(n, a) == /\ (n = SymN => AdjCode(n, a) <= AdjCode(n, Swap23(n, a)))
-                   /\ (n = MaxN /\ GraphMod > 1 => (AdjCode(n, a) + Seed) % GraphMod = 0)
-GraphShapes ==
-  UNION {{[fam |-> "graph", rel |-> r, n |-> n, adj |-> a, decor |-> d] :
-            r \in GraphRels, a \in {b \in [1..n -> SUBSET (1..n)] : GraphKept(n, b)},
-            d \in Decors} : n \in 1..MaxN}
 DecorIdx(d) == CASE d = "dangling" -> 1 [] d = "wrong" -> 2 [] d = "null" -> 3 [] d = "direct" -> 4 [] OTHER -> 0
-(* decorated graphs: all of them below MaxN nodes, a sample (a different one per decoration) on MaxN nodes *)
-GraphShapesKept == {s \in GraphShapes : s.decor = "none" \/ s.n < MaxN \/ (AdjCode(s.n, s.adj) + Seed + DecorIdx(s.decor)) % DecorMod = 0}
+(* graphs on n nodes: all below MaxN (up to the symmetry of nodes 2 and 3 when n = SymN), a sample on MaxN nodes;   *)
+(* decorated graphs: all on up to 2 nodes, a sample (a different one per decoration) on more nodes                  *)
+GraphCodeKept(n, c, d) ==
+  /\ (n = MaxN /\ GraphMod > 1 => (c + Seed) % GraphMod = 0)
+  /\ (d = "none" \/ n <= 2 \/ (c \div (IF n = MaxN THEN GraphMod ELSE 1) + Seed + DecorIdx(d)) % DecorMod = 0)
+  /\ (n = SymN => c <= AdjCode(n, Swap23(n, AdjOf(n, c))))
+GraphShapesKept ==
+  UNION {{[fam |-> "graph", rel |-> t[1], n |-> n, adj |-> AdjOf(n, t[2]), decor |-> t[3]] :
+            t \in {u \in GraphRels \X (0..(BitVal[n * n + 1] - 1)) \X Decors : GraphCodeKept(n, u[2], u[3])}} : n \in 1..MaxN}
 
-FunCode(n, f) == SumSet({i * 1000 + f[i] * 7 * i : i \in 1..n})
+FunOf(n, c) == [i \in 1..n |-> Digit(c, n + 3, i - 1)]
 FunShapes ==
-  UNION {{[fam |-> "fun", rel |-> r, n |-> n, succ |-> f] :
-            r \in FunRels, f \in {g \in [1..n -> 0..(n + 2)] : n < MaxN \/ FunMod = 1 \/ (FunCode(n, g) + Seed) % FunMod = 0}} : n \in 1..MaxN}
+  UNION {{[fam |-> "fun", rel |-> t[1], n |-> n, succ |-> FunOf(n, t[2])] :
+            t \in {u \in FunRels \X (0..(Pw(n + 3, n) - 1)) : n < MaxN \/ FunMod = 1 \/ (u[2] + Seed) % FunMod = 0}} : n \in 1..MaxN}
 
-(* outline: targets 0 = none, 1..n = items, n+1 = the outlines root.  rfirst/last are the root's First/Last,     *)
-(* first/ilast/next/prev the items' pointers.  One item: every pointer is free (all 486 graphs); more items:     *)
-(* an item's Last equals its First and the graphs are sampled.  rt: the root dictionary also carries a title and *)
-(* a destination, so that it reads like an item when it is reached as one.                                       *)
+(* outline: targets 0 = none, 1..n = items, n+1 = the outlines root.  rfirst/last are the root's First/Last,       *)
+(* first/ilast/next/prev the items' pointers.  One item: every pointer is free; more items: an item's Last equals  *)
+(* its First, the root's First is item 1, and the graphs (one base n+2 digit per pointer) are sampled.  rt: the    *)
+(* root dictionary also carries a title and a destination, so that it reads like an item when reached as one.     *)
 OutT(n) == 0..(n + 1)
-OutCode(n, s) == SumSet({i * 100 + s.first[i] * 17 + s.next[i] * 5 + s.prev[i] : i \in 1..n}) + s.last * 3 + s.rfirst
-OutlineShapes ==
-  UNION {{s \in [fam : {"outline"}, n : {n}, rt : BOOLEAN, rfirst : {1, n + 1}, last : OutT(n), first : [1..n -> OutT(n)],
-                 ilast : [1..n -> OutT(n)], next : [1..n -> OutT(n)], prev : [1..n -> OutT(n)]] :
-            \/ /\ n = 1
-               /\ \/ Outline1Mod = 1
-                  \/ (OutCode(n, s) + s.ilast[1] + Seed) % Outline1Mod = 0
-                  \/ (s.rt /\ s.rfirst = n + 1 /\ s.prev[1] = 1)     \* a root that reads like an item and a /Prev self loop
-            \/ (n > 1 /\ s.ilast = s.first /\ s.rfirst = 1 /\ ~s.rt /\ (OutlineMod = 1 \/ (OutCode(n, s) + Seed) % OutlineMod = 0))} : n \in OutlineNs}
+Outline1 ==
+  {s \in [fam : {"outline"}, n : {1}, rt : BOOLEAN, rfirst : {1, 2}, last : OutT(1), first : [1..1 -> OutT(1)],
+          ilast : [1..1 -> OutT(1)], next : [1..1 -> OutT(1)], prev : [1..1 -> OutT(1)]] :
+     \/ Outline1Mod = 1
+     \/ (s.first[1] * 27 + s.ilast[1] * 9 + s.next[1] * 3 + s.prev[1] + s.last * 81 + Seed) % Outline1Mod = 0
+     \/ (s.rt /\ s.rfirst = 2 /\ s.prev[1] = 1)}     \* a root that reads like an item and a /Prev self loop
+OutlineN(n) ==
+  {[fam |-> "outline", n |-> n, rt |-> FALSE, rfirst |-> 1, last |-> Digit(c, n + 2, 3 * n),
+    first |-> [i \in 1..n |-> Digit(c, n + 2, i - 1)], ilast |-> [i \in 1..n |-> Digit(c, n + 2, i - 1)],
+    next |-> [i \in 1..n |-> Digit(c, n + 2, n + i - 1)], prev |-> [i \in 1..n |-> Digit(c, n + 2, 2 * n + i - 1)]] :
+     c \in {x \in 0..(Pw(n + 2, 3 * n + 1) - 1) : OutlineMod = 1 \/ (x + Seed) % OutlineMod = 0}}
+OutlineShapes == UNION {IF n = 1 THEN Outline1 ELSE OutlineN(n) : n \in OutlineNs}
 
 DepthsOf(k) == {Limit - 1, Limit, Limit + 1, 10 * Limit, BigDepth} \cup (IF k \in SynKinds THEN {HugeDepth} ELSE {})
 DepthShapes == UNION {{[fam |-> "depth", rel |-> k, depth |-> d] : d \in DepthsOf(k)} : k \in DepthRels \cup SynKinds}
@@ -101,6 +113,7 @@ SetSeq(S) == LET RECURSIVE f(_)
              IN f(S)
 
 InitOf(s) == /\ shape = s
+             /\ ne = Cardinality(Edges(s))
              /\ todo = IF GraphLike(s) THEN <<1>> ELSE <<>>
              /\ visited = {} /\ level = 0 /\ steps = 0 /\ revisit = FALSE
              /\ status = IF s.fam \in {"mut", "pdfmut", "trunc"} THEN "ok" ELSE "run"
@@ -115,22 +128,22 @@ Visit == /\ status = "run" /\ GraphLike(shape)
                    ELSE /\ visited' = visited \cup {v}
                         /\ todo' = SetSeq(Succs(shape, v)) \o Tail(todo)
                         /\ UNCHANGED <<revisit, status>>
-         /\ UNCHANGED <<shape, level>>
+         /\ UNCHANGED <<shape, ne, level>>
 
 Descend == /\ status = "run" /\ shape.fam = "depth"
            /\ steps' = steps + 1
            /\ IF level = shape.depth THEN status' = "ok" /\ UNCHANGED level
               ELSE IF level > Limit THEN status' = "depth" /\ UNCHANGED level
               ELSE level' = level + 1 /\ UNCHANGED status
-           /\ UNCHANGED <<shape, todo, visited, revisit>>
+           /\ UNCHANGED <<shape, ne, todo, visited, revisit>>
 
 Next == Visit \/ Descend
 Spec == Init /\ [][Next]_vars
 Done == status # "run"
 
 (* ------------------------------------------------------------ design properties *)
-StepBound == steps <= (IF GraphLike(shape) THEN 2 + shape.n + Cardinality(Edges(shape)) ELSE Limit + 3)
-ExpandOnce == Len(todo) <= 1 + Cardinality(Edges(shape))
+StepBound == steps <= (IF GraphLike(shape) THEN 2 + shape.n + ne ELSE Limit + 3)
+ExpandOnce == Len(todo) <= 1 + ne
 GuardedDepth == level <= Limit + 1
 (* termination: the step counter grows with every step and is bounded, and the traversal can always move *)
 Progress == status = "run" => ENABLED Next
